@@ -851,10 +851,8 @@ PPL::Grid::is_bounded() const {
 
   if (gen_sys.num_rows() > 1) {
     // Check if all generators are the same point.
-    const Grid_Generator& first_point = gen_sys[0];
-    if (first_point.is_line_or_parameter()) {
-      return false;
-    }
+    // (In a non-minimized system the first row need not be a point.)
+    const Grid_Generator* first_point = nullptr;
     for (dimension_type row = gen_sys.num_rows(); row-- > 0; ) {
       const Grid_Generator& gen = gen_sys[row];
       if (gen.is_line_or_parameter()) {
@@ -865,7 +863,10 @@ PPL::Grid::is_bounded() const {
         }
         return false;
       }
-      if (gen != first_point) {
+      if (first_point == nullptr) {
+        first_point = &gen;
+      }
+      else if (gen != *first_point) {
         return false;
       }
     }
